@@ -117,10 +117,13 @@ def sparql_service_available(endpoint: str) -> bool:
 
 
 def _handle_part(part: str) -> tuple[str, float]:
-    if ";q=" not in part:
-        return part, 1.0
-    key, q = part.split(";q=", 1)
-    return key, float(q)
+    # optional whitespace is allowed around "," and ";", see RFC 7231 section 5.3.2
+    key, *parameters = (x.strip() for x in part.split(";"))
+    for parameter in parameters:
+        name, _, value = parameter.partition("=")
+        if name.strip().lower() == "q":
+            return key, float(value.strip())
+    return key, 1.0
 
 
 def parse_header(header: str) -> list[str]:
